@@ -55,7 +55,7 @@ def fits24(self):
     return use_lemma(cat_len, self._avps) and 20 + slen(self._avps) < MAX24
 
 
-@contract("bromelia.base.DiameterMessage.refresh", prop="C01", name="_", also=("C11",))
+@contract("bromelia.base.DiameterMessage.refresh", prop="C01", name="_", also=("C11", "C12"))
 class _Refresh:
     """re-establishes the length invariant whatever the header said before"""
     args = {"self": msg_shape()}
